@@ -359,7 +359,11 @@ void commodity_t::parse_symbol(char *& p, string& symbol)
     if (! q)
       throw_(amount_error, _("Quoted commodity symbol lacks closing quote"));
     symbol = string(p + 1, 0, static_cast<std::string::size_type>(q - p - 1));
-    p = q + 2;
+    // Step over the closing quote and the separator after it, if there is
+    // one: the quote may end the line.
+    p = q + 1;
+    if (*p)
+      p++;
   } else {
     char * q = next_element(p);
     symbol = p;
